@@ -15,6 +15,8 @@ _tus = [
     tu("c16_otsu", _THR, "asan", extra=NONULL + ["-DC16_PART=1"], deps=_DEPS),
     tu("c16_morph0", _MOR, "asan", extra=NONULL + ["-DC16_MPART=0"], deps=_DEPS),
     tu("c16_morph1", _MOR, "asan", extra=NONULL + ["-DC16_MPART=1"], deps=_DEPS),
+    tu("c16_morph2", _MOR, "asan", extra=NONULL + ["-DC16_MPART=2"], deps=_DEPS),
+    tu("c16_morph3", _MOR, "asan", extra=NONULL + ["-DC16_MPART=3"], deps=_DEPS),
     tu("c16_probe_f32_binary", "harness/c16_probe_f32.cpp", "asan", extra=["-DC16_PROBE=0"], probe="threshold_binary.f32"),
     tu("c16_probe_f32_truncate", "harness/c16_probe_f32.cpp", "asan", extra=["-DC16_PROBE=1"], probe="threshold_truncate.f32"),
 ]
@@ -24,6 +26,8 @@ _runs = [
     run("c16_otsu", shards=16, min_cases={"quick": 700, "thorough": 2800}, max_restarts=600),
     run("c16_morph0", shards=4, min_cases={"quick": 104, "thorough": 290}),
     run("c16_morph1", shards=4, min_cases={"quick": 199, "thorough": 577}),
+    run("c16_morph2", shards=4, min_cases={"quick": 104, "thorough": 290}),
+    run("c16_morph3", shards=4, min_cases={"quick": 199, "thorough": 577}),
 ]
 if ENABLE_F32:
     _tus.append(tu("c16_thr_f32", _THR, "asan", extra=NONULL + ["-DC16_PART=2"], deps=_DEPS))
@@ -47,9 +51,12 @@ CFG = dict(
           "(binary regular/inverse with deduced and explicit max, truncate threshold/zero x regular/inverse) is one "
           "evaluation = one distinct (type, layout, shape, threshold, variant) tuple. Otsu: one case per (type, layout, content "
           "class, shape), two evaluations (directions). Morphology: one case per (pixel type, shape); per structuring element "
-          "(sizes 1,3,5[,7] x {full, cross, empty, seeded symmetric}) 14 checked GIL calls (dilate, erode on two ordered "
-          "sources, opening, closing, their re-application, iterations 0 and 2) = 1 distinct tuple (type, shape, SE). Median: "
-          "one case per (pixel type, shape); per kernel size k and content mode one evaluation/distinct tuple. All tuples are "
+          "(sizes 1,3,5[,7] x {full, cross, empty, seeded symmetric}) 15 checked GIL calls (dilate, erode on two ordered "
+          "sources, opening, closing, their re-application, gradient, iterations 0 and 2) = 1 distinct tuple (type, shape, SE). "
+          "Image contents rotate through six content classes for every channel type: full-range, few-levels, impulses, "
+          "special-mix (each pixel with probability 1/2 one of {min, min+1, -1, 0, 1, max-1, max}, else seeded), special-only, "
+          "special-neighbours (one special value and its +-1 neighbours); float32 uses {0, next(0), FLT_MIN, 0.5, next(0.5), "
+          "prev(1), 1}. Median: one case per (pixel type, shape); per kernel size k and content class one evaluation/distinct tuple. All tuples are "
           "distinct by construction of the nested enumeration and non-trivial (compared against the definition), except "
           "that empty shapes have no output pixel (they check that nothing is read or written)."),
     exhaustive={"quick": False, "thorough": False},
@@ -61,8 +68,9 @@ CFG = dict(
     },
     types=["threshold_binary/truncate: gray8, rgb8, rgb8->bgr8, gray16, rgb16, gray16s, rgb16s (gray32f/rgb32f: compile probes)",
            "threshold_optimal: gray/rgb x uint8, int8, uint16, int16",
-           "dilate/erode/opening/closing: gray8, rgb8, gray16s with detail::kernel_2d<float> structuring elements",
-           "median_filter: gray8, rgb8, gray16"],
+           "dilate/erode/opening/closing/morphological_gradient: gray8, rgb8, gray8s, gray16, gray16s, gray32f (no gradient: does "
+           "not instantiate) with detail::kernel_2d<float> structuring elements",
+           "median_filter: gray8, rgb8, gray8s, gray16, gray16s, gray32f"],
     assumptions=["preconditions respected: equal source/destination dimensions, odd median kernel sizes, non-empty sources for "
                  "median (edge replication), centred symmetric (transpose- and point-symmetric) 0/1 structuring elements",
                  "the centre pixel always takes part in dilate/erode, as the code documents",
@@ -73,5 +81,7 @@ CFG = dict(
                  "histogram index out of range) depends on the class only, never on the seed"],
     tus=_tus,
     runs=_runs,
-    require_obs=["otsu.completed.u8.seeded-last-between", "otsu.completed.u8.constant-lo", "otsu.completed.u16.empty"],
+    require_obs=["otsu.completed.u8.seeded-last-between", "otsu.completed.u8.constant-lo", "otsu.completed.u16.empty",
+                 "morph.content.gray8s.special-mix", "morph.content.gray16s.special-mix", "morph.content.gray32f.special-neighbours",
+                 "morph.content.gray8.special-only", "median.content.gray16s.special-mix", "median.content.gray32f.special-only"],
 )
